@@ -37,7 +37,7 @@ CHECKS = {
    text="String, MarshalText, %v, Sprint and Format/Append with precision -1 (e,E,f,g,G) are observed for values on the grid digit-length 1..35 x trailing zeros x exponent class (switch-over X=-7..8, range ends), both BID forms, zeros, specials; the text is read independently (exact rational equality, '-' iff sign bit, no superfluous digits, positional iff adjusted exponent in -4..5) and fed back through Parse/UnmarshalText/Sscan with the result judged on raw bits. Exploration.",
    ref="DESIGN.md §5 C06"),
  "C07": dict(
-   technique="runtime monitor with three oracle layers: exact half-even digit oracle in big.Int (L1), byte-for-byte differential against the toolchain's fmt/strconv on a float64 holding the same exact value (L2), Decimal.Append vs Sprintf equality (L3)",
+   technique="runtime monitor with layered oracles: exact half-even digit oracle in big.Int plus an independent text model of the fmt/strconv layout rules applied to every finite value (L1, model self-validated against the toolchain's fmt each run), byte-for-byte differential against fmt/strconv on a float64 holding the same exact value (L2), Decimal.Append vs Sprintf equality (L3)",
    text="Sprintf, Decimal.Append, Format and Append are observed over the enumerated spec space verb{e,E,f,F,g,G} x precision{absent,0..40} x width{absent,1..40} x 32 flag sets (quick: half of the 330k combinations, thorough: all, 3 passes) on values engineered for ties, carries, empty kept prefixes, g/G switch-over, zeros, 35-digit coefficients and long outputs, and on dyadic values exactly held by a float64 for the layout differential. Exploration.",
    ref="DESIGN.md §5 C07"),
  "C08": dict(
